@@ -281,6 +281,16 @@ Fixpoint pyo_list_upd {A : Type} (l : list A) (n : nat) (f : A -> A) : list A :=
   end.
 Definition pyo_list_modify {A : Type} (l : list A) (i : Z) (f : A -> A) : option (list A) :=
   match pyo_lindex (List.length l) i with Some n => Some (pyo_list_upd l n f) | None => None end.
+(* enumerate(l); list.insert(i, x) (negative i counts from the end, then clamped); l[i] = x and del l[i]
+   (None: IndexError); item.set_session_mnemonic_only(m) as the item afterwards *)
+Definition pyo_enumerate {A : Type} (l : list A) : list (Z * A) := List.combine (pyo_range (pyo_llen l)) l.
+Definition pyo_list_insert {A : Type} (l : list A) (i : Z) (x : A) : list A :=
+  let n := pyo_bound (List.length l) i in firstn n l ++ x :: skipn n l.
+Definition pyo_list_set {A : Type} (l : list A) (i : Z) (x : A) : option (list A) := pyo_list_modify l i (fun _ => x).
+Definition pyo_list_del {A : Type} (l : list A) (i : Z) : option (list A) :=
+  match pyo_lindex (List.length l) i with Some n => Some (firstn n l ++ skipn (S n) l) | None => None end.
+Definition pyo_set_session {V : Type} (it : py_item V) (m : list N) : py_item V :=
+  mk_py_item m (it_original_mnemonic it) (it_unit it) (it_value it) (it_descr it).
 (* what LASFile.read asks of the column arrays the engines yield (A) and of the curve items (C):
    arr.dtype == float, arr[arr == null] = np.nan (as the array afterwards), len(arr),
    np.empty(n) * np.nan, item.data = arr, CurveItem(mnemonic="", data=arr), SectionItems.append *)
@@ -389,6 +399,8 @@ class Tr:
         self.loop_ret = []       # inside loops with a return: is the context around the loop partial?
         self.handlers = []       # enclosing `try ... except <Class>:` handlers, innermost last
         self.loop_brk = []       # inside loops with a break: what `break` emits
+        self.alias = {}          # x -> (l, i, binding counts) after `x = l[i]`
+        self.bind_count = {}
 
     # ---- helpers ---------------------------------------------------------------------------
     def fresh(self):
@@ -650,6 +662,8 @@ class Tr:
                 return self.strict([a, b], lambda c: "(%s ++ %s)" % (c[0], c[1]), a.ty)
             if a.ty == INT and b.ty == INT:
                 return self.strict([a, b], lambda c: "(%s + %s)%%Z" % (c[0], c[1]), INT)
+            if a.ty == b.ty and is_type(a.ty, "list"):
+                return self.strict([a, b], lambda c: "(%s ++ %s)" % (c[0], c[1]), a.ty)
             self.err(n, "+ on %s and %s" % (a.ty, b.ty))
         if isinstance(n.op, ast.Sub):
             if a.ty == INT and b.ty == INT:
@@ -674,13 +688,24 @@ class Tr:
         """<constant format> % (args): only %s conversions"""
         if not (isinstance(n.left, ast.Constant) and isinstance(n.left.value, str)):
             self.err(n, "% with a non-constant left operand")
-        lits = n.left.value.split("%s")
-        if any("%" in l for l in lits):
-            self.err(n, "format conversion other than %s")
+        import re as _re
+        convs = _re.findall(r"%(.)", n.left.value)
+        lits = _re.split(r"%.", n.left.value)
+        if any(c not in "sd" for c in convs) or ("d" in convs and "int_str" not in self.spec):
+            self.err(n, "format conversion other than %s (and %d where the spec names the rendering of ints)")
         args = n.right.elts if isinstance(n.right, ast.Tuple) else [n.right]
         if len(args) != len(lits) - 1:
             self.err(n, "format arity")
-        es = [self.to_str(self.expr(a, env), n) for a in args]
+        es = []
+        for cv, a in zip(convs, args):
+            e = self.expr(a, env)
+            if cv == "d":
+                # "%d" % int: the decimal rendering is an operation the spec names (never computed here)
+                if e.ty != INT:
+                    self.err(n, "%%d of %s" % (e.ty,))
+                es.append(self.strict([e], lambda c: "%s (%s)" % (self.spec["int_str"], c[0]), STR))
+            else:
+                es.append(self.to_str(e, n))
 
         def build(c):
             parts = []
@@ -829,6 +854,10 @@ class Tr:
                 return self.STR_IS[c.id]
             if n.func.id == "hasattr" and isinstance(c, ast.Constant) and isinstance(c.value, str):
                 return hasattr("", c.value)
+        if isinstance(n, ast.Compare) and len(n.ops) == 1 and isinstance(n.ops[0], (ast.Is, ast.IsNot)) \
+                and isinstance(n.left, ast.Name) and isinstance(n.comparators[0], ast.Constant) and n.comparators[0].value is None \
+                and (env.get(n.left.id) in (STR, INT, BOOL, ITEM) or is_type(env.get(n.left.id), "list")):
+            return isinstance(n.ops[0], ast.IsNot)      # a str / int / list / item parameter is not None
         if isinstance(n, ast.Compare) and len(n.ops) == 1 and isinstance(n.ops[0], (ast.Is, ast.IsNot)) \
                 and isinstance(n.left, ast.Name) and isinstance(n.comparators[0], ast.Name):
             tys = {env.get(n.left.id), env.get(n.comparators[0].id)}
@@ -1008,6 +1037,23 @@ class Tr:
                 self.err(n, "len of %s" % (a.ty,))
             if f.id == "str" and len(n.args) == 1:
                 return self.to_str(self.expr(n.args[0], env), n)
+            if f.id == "enumerate" and len(n.args) == 1:
+                a = self.expr(n.args[0], env)
+                if not is_type(a.ty, "list"):
+                    self.err(n, "enumerate of %s" % (a.ty,))
+                return self.strict([a], lambda c: "pyo_enumerate (%s)" % c[0], LIST(TUPLE(INT, a.ty[1])))
+            if f.id in ("__list_insert__", "__list_set__", "__list_del__") and self.spec.get("mutator"):
+                args = [self.expr(a, env) for a in n.args]
+                l = args[0]
+                if not is_type(l.ty, "list") or args[1].ty != INT:
+                    self.err(n, "list operation on %s" % (l.ty,))
+                if f.id == "__list_insert__":
+                    x = self.coerce(args[2], l.ty[1], n)
+                    return self.strict([l, args[1], x], lambda c: "pyo_list_insert (%s) (%s) (%s)" % tuple(c), l.ty)
+                if f.id == "__list_set__":
+                    x = self.coerce(args[2], l.ty[1], n)
+                    return self.partial_op([l, args[1], x], lambda c: "pyo_list_set (%s) (%s) (%s)" % tuple(c), l.ty, exc="IndexError")
+                return self.partial_op([l, args[1]], lambda c: "pyo_list_del (%s) (%s)" % tuple(c), l.ty, exc="IndexError")
             if f.id == "range" and len(n.args) == 1:
                 a = self.expr(n.args[0], env)
                 if a.ty != INT:
@@ -1082,6 +1128,11 @@ class Tr:
                 if a not in mine:
                     self.err(n, "self.%s reads self.%s, which is not declared here" % (f.attr, a))
                 passed.append(E(self.var("self_" + a), mine[a]))
+            if REGISTRY[meths[f.attr]].get("mutator"):
+                # a method that changes the list: it takes the list and (MutatorTr) its result replaces self
+                if not is_type(env.get("self"), "list"):
+                    self.err(n, "self.%s changes self" % f.attr)
+                passed.append(E(self.var("self"), env["self"]))
             return self.call_registered(meths[f.attr], passed + [self.expr(a, env) for a in n.args], n)
         r = self.expr(f.value, env)
         m = f.attr
@@ -1174,7 +1225,15 @@ class Tr:
             elif isinstance(t, ast.Attribute) and isinstance(t.value, ast.Subscript) and isinstance(t.value.value, ast.Name):
                 add(t.value.value.id)
         sink = self.spec.get("write_sink")
+        elem_of = {}
         for s in stmts:
+            if isinstance(s, ast.Assign) and len(s.targets) == 1 and isinstance(s.targets[0], ast.Name) \
+                    and isinstance(s.value, ast.Subscript) and isinstance(s.value.value, ast.Name):
+                elem_of[s.targets[0].id] = s.value.value.id
+            if isinstance(s, ast.Expr) and isinstance(s.value, ast.Call) and isinstance(s.value.func, ast.Attribute) \
+                    and s.value.func.attr == "set_session_mnemonic_only" and isinstance(s.value.func.value, ast.Name) \
+                    and s.value.func.value.id in elem_of:
+                add(elem_of[s.value.func.value.id])      # changing an element changes the list it was taken from
             if sink and isinstance(s, ast.Expr) and isinstance(s.value, ast.Call) and same_ast(s.value.func, sink[0] + ".write"):
                 add(sink[1])
             if isinstance(s, ast.Assign):
@@ -1238,6 +1297,8 @@ class Tr:
 
     def bind(self, name, e, env, node):
         """(let-prefix, suffix, new env) for name = e"""
+        self.bind_count[name] = self.bind_count.get(name, 0) + 1
+        self.alias.pop(name, None)
         self._env_before = dict(env)
         env = dict(env)
         ty = e.ty
@@ -1254,6 +1315,11 @@ class Tr:
             if h is not None:
                 return ("match %s with\n| Some %s =>\n" % (e.code, self.var(name)),
                         "\n| None =>\n%s\nend" % indent(self.handled(h, self._env_before)), env)
+            if self.loop_ret and not self.loop_brk and not self.in_try:
+                # inside a loop with return: raising leaves the loop with the result None
+                if not self.loop_ret[-1]:
+                    raise NeedPartial()
+                return "match %s with\n| None => inl None\n| Some %s =>\n" % (e.code, self.var(name)), "\nend", env
             self.need_partial(node)
             return "obind (%s) (fun %s : %s =>\n" % (e.code, self.var(name), cty), ")", env
         return "let %s : %s := %s in\n" % (self.var(name), cty, e.code), "", env
@@ -1319,6 +1385,24 @@ class Tr:
             s = ast.copy_location(ast.Assign(targets=[s.target], value=v), s)
         if isinstance(s, ast.Assign):
             return self.assign(s, env, go)
+        if isinstance(s, ast.Expr) and isinstance(s.value, ast.Call) and isinstance(s.value.func, ast.Attribute) \
+                and s.value.func.attr == "set_session_mnemonic_only" and isinstance(s.value.func.value, ast.Name) \
+                and len(s.value.args) == 1 and not s.value.keywords:
+            # x.set_session_mnemonic_only(m) where x = l[i] was bound just before: the element of l changes
+            x = s.value.func.value.id
+            al = self.alias.get(x)
+            if al is None or env.get(x) != ITEM or any(self.bind_count.get(nm, 0) != cnt for nm, cnt in al[2]):
+                self.err(s, "%s is not known to be an element of a list" % x)
+            lname, iname = al[0], al[1]
+            m = self.expr(s.value.args[0], env)
+            if m.ty != STR:
+                self.err(s, "session mnemonic of type %s" % (m.ty,))
+            new = self.partial_op([m], lambda c: "pyo_list_modify (%s) (%s) (fun it_ => pyo_set_session it_ (%s))" % (
+                self.var(lname), self.var(iname), c[0]), env[lname], exc="IndexError")
+            pre, post, env2 = self.bind(lname, new, env, s)
+            env2 = dict(env2)
+            env2[x] = None           # x is the element before the change
+            return pre + go(env2) + post
         if isinstance(s, ast.Expr):
             c = s.value
             if isinstance(c, ast.Call) and isinstance(c.func, ast.Attribute) and c.func.attr == "append" \
@@ -1522,6 +1606,9 @@ class Tr:
         else:
             e = self.expr(v, env)
         pre, post, env2 = self.bind(name, e, env, s)
+        if isinstance(v, ast.Subscript) and isinstance(v.value, ast.Name) and isinstance(v.slice, ast.Name) \
+                and env.get(v.value.id) == LIST(ITEM) and env.get(v.slice.id) == INT:
+            self.alias[name] = (v.value.id, v.slice.id, [(nm, self.bind_count.get(nm, 0)) for nm in (v.value.id, v.slice.id, name)])
         return pre + go(env2) + post
 
     def none_idiom(self, s, env):
@@ -1963,6 +2050,7 @@ class Tr:
                 coq=spec["coq"], args=[t for t in spec.get("self_attrs", {}).values()] + [t for _, t in spec["params"] if t is not None],
                 ret=spec["ret"], partial=self.fn_partial, ops=needs_ops, extra=list(spec.get("extra_binders", [])),
                 file=spec["file"] if not spec.get("cls") and not spec.get("translator") else None,
+                mutator=bool(spec.get("mutator")),
                 self_attrs=list(spec.get("self_attrs", {})))
         return "\n".join(out)
 
@@ -2249,6 +2337,59 @@ class BlockTr(Tr):
         pass        # the declared parameters are the block's free variables
 
 
+class MutatorTr(Tr):
+    """A method of SectionItems (a list subclass) that changes the list, as a function from the item list to
+    the item list: `self` is the local variable holding the list; super(SectionItems, self).append / insert /
+    __setitem__ / __delitem__ are the list operations; a call of another translated mutator method replaces
+    self by its result; `return` returns self.  self[i] with an int i is list indexing (the mnemonic loop of
+    SectionItems.__getitem__ never matches an int)."""
+    LIST_OPS = {"append": None, "insert": "__list_insert__", "__setitem__": "__list_set__", "__delitem__": "__list_del__"}
+
+    def body_of(self, fn):
+        tr = self
+        cls = self.spec["cls"]
+
+        def super_call(c):
+            return isinstance(c, ast.Call) and isinstance(c.func, ast.Attribute) and same_ast(c.func.value, "super(%s, self)" % cls) \
+                and c.func.attr in tr.LIST_OPS and not c.keywords
+
+        class Rw(ast.NodeTransformer):
+            def visit_Expr(self, node):
+                c = node.value
+                if super_call(c):
+                    if c.func.attr == "append":
+                        new = ast.parse("self = self + [x]").body[0]
+                        new.value.right.elts = [c.args[0]]
+                    else:
+                        new = ast.parse("self = %s(self)" % tr.LIST_OPS[c.func.attr]).body[0]
+                        new.value.args = [new.value.args[0]] + list(c.args)
+                    return ast.copy_location(new, node)
+                if isinstance(c, ast.Call) and isinstance(c.func, ast.Attribute) and isinstance(c.func.value, ast.Name) \
+                        and c.func.value.id == "self" and c.func.attr in tr.spec.get("self_methods", {}) \
+                        and REGISTRY.get(tr.spec["self_methods"][c.func.attr], {}).get("mutator"):
+                    new = ast.parse("self = x").body[0]
+                    new.value = c
+                    return ast.copy_location(new, node)
+                return node
+
+            def visit_Return(self, node):
+                if node.value is not None:
+                    tr.err(node, "a mutator that returns a value")
+                return ast.copy_location(ast.parse("return self").body[0], node)
+        body = [Rw().visit(st) for st in fn.body]
+        for st in body:
+            for x in ast.walk(st):
+                if isinstance(x, ast.Call) and isinstance(x.func, ast.Name) and x.func.id == "super":
+                    tr.err(x, "unsupported use of super()")
+        ret = ast.parse("return self").body[0]
+        for x in ast.walk(ret):
+            x.lineno = fn.body[-1].end_lineno
+        out = body + [ret]
+        for st in out:
+            ast.fix_missing_locations(st)
+        return out
+
+
 class NestedDefTr(Tr):
     """A function defined inside a big function, as a function of its own parameters and of the variables
     of the enclosing function it reads (the spec's `free`, which it must not assign).  Parameter defaults
@@ -2416,6 +2557,26 @@ SPECS += [
          params=[("section_title", STR), ("sct_items", SECTION), ("provisional_version", DYN), ("provisional_wrapped", DYN),
                  ("provisional_null", DYN), ("provisional_delimiter", DYN)],
          ret=TUPLE(DYN, DYN, DYN, DYN)),
+    dict(py="assign_duplicate_suffixes", file="las_items.py", cls="SectionItems", coq="py_assign_duplicate_suffixes",
+         translator=MutatorTr, mutator=True, params=[("self", LIST(ITEM)), ("test_mnemonic", STR)], ret=LIST(ITEM),
+         self_attrs={"mnemonic_transforms": BOOL}, self_methods={"mnemonic_compare": "SectionItems.mnemonic_compare"},
+         locals={"locations": LIST(INT)}, extra_binders=[("(int_str : Z -> list N)", "int_str")], int_str="int_str"),
+    dict(py="append", file="las_items.py", cls="SectionItems", coq="py_section_append",
+         translator=MutatorTr, mutator=True, params=[("self", LIST(ITEM)), ("newitem", ITEM)], ret=LIST(ITEM),
+         self_attrs={"mnemonic_transforms": BOOL}, extra_binders=[("(int_str : Z -> list N)", "int_str")],
+         self_methods={"assign_duplicate_suffixes": "SectionItems.assign_duplicate_suffixes"}),
+    dict(py="insert", file="las_items.py", cls="SectionItems", coq="py_section_insert",
+         translator=MutatorTr, mutator=True, params=[("self", LIST(ITEM)), ("i", INT), ("newitem", ITEM)], ret=LIST(ITEM),
+         self_attrs={"mnemonic_transforms": BOOL}, extra_binders=[("(int_str : Z -> list N)", "int_str")],
+         self_methods={"assign_duplicate_suffixes": "SectionItems.assign_duplicate_suffixes"}),
+    dict(py="set_item", file="las_items.py", cls="SectionItems", coq="py_section_set_item",
+         translator=MutatorTr, mutator=True, params=[("self", LIST(ITEM)), ("key", STR), ("newitem", ITEM)], ret=LIST(ITEM),
+         self_attrs={"mnemonic_transforms": BOOL}, extra_binders=[("(int_str : Z -> list N)", "int_str")],
+         self_methods={"assign_duplicate_suffixes": "SectionItems.assign_duplicate_suffixes", "append": "SectionItems.append",
+                       "mnemonic_compare": "SectionItems.mnemonic_compare"}),
+    dict(py="__delitem__", file="las_items.py", cls="SectionItems", coq="py_section_delitem",
+         translator=MutatorTr, mutator=True, params=[("self", LIST(ITEM)), ("key", STR)], ret=LIST(ITEM),
+         self_attrs={"mnemonic_transforms": BOOL}, self_methods={"mnemonic_compare": "SectionItems.mnemonic_compare"}),
     dict(py="_json_value", file="las.py", cls=None, coq="py_json_value",
          params=[("x", DYN)], ret=DYN, extra_binders=[("(jops : json_ops V)", "jops")],
          const_exprs={"isinstance(x, np.integer)": ("j_is_np_integer jops v_x", BOOL),
